@@ -198,6 +198,12 @@ func (g *Geometry) UnmarshalJSON(data []byte) error {
 
 // UnmarshalBSON will unmarshal a BSON document created with bson.Marshal.
 func (g *Geometry) UnmarshalBSON(data []byte) error {
+	// the driver's struct decoder can loop forever on a document whose
+	// element lengths are corrupt, so make sure it is well formed first.
+	if err := bson.Raw(data).Validate(); err != nil {
+		return err
+	}
+
 	bg := &bsonGeometry{}
 	err := bson.Unmarshal(data, bg)
 	if err != nil {
